@@ -1,7 +1,18 @@
 package checks
 
 import (
+	"bytes"
+	"context"
 	"fmt"
+	"time"
+
+	"github.com/aws/aws-sdk-go-v2/service/s3"
+	"github.com/aws/aws-sdk-go-v2/service/s3/types"
+	"github.com/versity/versitygw/backend/meta"
+	"github.com/versity/versitygw/backend/posix"
+	"github.com/versity/versitygw/s3response"
+
+	"verif/harness/internal/s3c"
 
 	"verif/harness/internal/core"
 	"verif/harness/internal/tlc"
@@ -114,4 +125,107 @@ func C09(c *core.Ctx, replay string) {
 		total += len(behs)
 	}
 	c.Extra["behaviours"] = total
+	c09Burst(c)
+}
+
+// c09Burst replays write-only behaviours directly on the posix backend, in this
+// process and back to back, so that many version-creating writes to one key fall
+// into the same millisecond; the version listing must still equal the spec's
+// stack (newest first, one latest).
+func c09Burst(c *core.Ctx) {
+	n := c.Pick(6, 60)
+	res, err := tlc.Run(c.Scratch, tlc.Opts{Module: "S3GwBasic", Workers: 1, Simulate: fmt.Sprintf("num=%d", n), Depth: 50, Seed: c.Seed + 99,
+		CfgText: basicCfg("Spec", "burst", false, 40, `{"k1", "k2"}`, `{"A", "B", "C"}`, "")})
+	if err != nil || (!res.OK && res.Violated != "") {
+		c.Inconclusive("S3GwBasic burst simulation: %v %v", err, res.Tail(20))
+		return
+	}
+	c.States += res.Distinct
+	c.Transitions += res.Generated
+	c.TLCRuns = append(c.TLCRuns, res.Summary("S3GwBasic", "simulate burst (writes only, 40 steps)"))
+	behs := parseBehaviours(res.PrintLines)
+	res.Cleanup()
+	root, vdir := c.Dir("burst-root"), c.Dir("burst-versions")
+	be, err := posix.New(root, meta.XattrMeta{}, posix.PosixOpts{VersioningDir: vdir, NewDirPerm: 0o755})
+	if err != nil {
+		c.Inconclusive("posix.New: %v", err)
+		return
+	}
+	ctx := context.Background()
+	w := &gwWorld{c: c, prop: "C09", sizes: map[string]int{"A": 10, "B": 20, "C": 30}, symVid: map[string]string{}, realVid: map[string]string{},
+		byEtag: map[string]string{}, keyNames: map[string]string{}}
+	for id := range w.sizes {
+		w.byEtag[s3c.MD5Hex(w.body(id))] = id
+	}
+	sameMs := 0
+	for bi, b := range behs {
+		w.reset("")
+		bucket := fmt.Sprintf("burst%d", bi)
+		if err := be.CreateBucket(ctx, &s3.CreateBucketInput{Bucket: &bucket}, []byte(`{"Owner":"root"}`)); err != nil {
+			c.Inconclusive("create bucket: %v", err)
+			return
+		}
+		if err := be.PutBucketVersioning(ctx, bucket, types.BucketVersioningStatusEnabled); err != nil {
+			c.Inconclusive("enable versioning: %v", err)
+			return
+		}
+		var last gwStep
+		lastMs := int64(-1)
+		for _, s := range b.Tr {
+			if s.Op == "End" {
+				break
+			}
+			a := map[string]any(s.A)
+			key := str(a, "k")
+			switch s.Op {
+			case "PutObject":
+				body := w.body(str(a, "c"))
+				ln := int64(len(body))
+				out, err := be.PutObject(ctx, s3response.PutObjectInput{Bucket: &bucket, Key: &key, Body: bytes.NewReader(body), ContentLength: &ln})
+				if err != nil {
+					c.Inconclusive("backend PutObject: %v", err)
+					return
+				}
+				w.bindVid(str(s.R, "vid"), out.VersionID)
+			case "DeleteObject":
+				out, err := be.DeleteObject(ctx, &s3.DeleteObjectInput{Bucket: &bucket, Key: &key})
+				if err != nil {
+					c.Inconclusive("backend DeleteObject: %v", err)
+					return
+				}
+				if out.VersionId != nil {
+					w.bindVid(str(s.R, "vid"), *out.VersionId)
+				}
+			}
+			if ms := time.Now().UnixMilli(); ms == lastMs {
+				sameMs++
+			} else {
+				lastMs = ms
+			}
+			last = s
+		}
+		mk := int32(1000)
+		lv, err := be.ListObjectVersions(ctx, &s3.ListObjectVersionsInput{Bucket: &bucket, MaxKeys: &mk})
+		if err != nil {
+			c.Inconclusive("backend ListObjectVersions: %v", err)
+			return
+		}
+		got := map[string][]gwVer{}
+		for _, v := range lv.Versions {
+			got[*v.Key] = append(got[*v.Key], gwVer{Vid: w.symOf(*v.VersionId), C: w.etagContent(*v.ETag), Latest: v.IsLatest != nil && *v.IsLatest})
+		}
+		for _, m := range lv.DeleteMarkers {
+			got[*m.Key] = append(got[*m.Key], gwVer{Vid: w.symOf(*m.VersionId), Dm: true, C: "-", Latest: m.IsLatest != nil && *m.IsLatest})
+		}
+		for _, k := range []string{"k1", "k2"} {
+			for _, d := range compareStacks(last.Post.stack("bkt", k), got[k]) {
+				c.Violation(core.FP("C09", "burst", d.Field+":"+d.Want+"->"+d.Got),
+					fmt.Sprintf("after %d back-to-back writes the version listing of %s differs from the spec's stack: %s want %s got %s", len(b.Tr), k, d.Field, d.Want, d.Got),
+					map[string]any{"behaviour": b.Tr})
+			}
+		}
+		c.Eval(fmt.Sprintf("burst-%d", bi))
+		c.TracesValidated++
+	}
+	c.Extra["burst_same_millisecond_neighbours"] = sameMs
 }
